@@ -26,8 +26,11 @@ TEXT = {
     "C06": _t("Bounded-exhaustive scenario matrix over barrier path x child state x trace order x every collector step count x drain mode, judged by M-live/M-weak/M-panic; hook snapshot used only to classify colour cells reached.", _NOTE, "enumerated scenario matrix under runtime monitors"),
     "C07": _t("M-final: is_dead/resurrect results inside finalize vs shadow reachability (clean-cycle rule), Marking-after-revival, protected closure until cycle end.", _NOTE, "runtime monitor of finalization queries"),
     "C08": _t("M-phase: online trace checker of per-method phase contracts over collection_phase() samples around every call of every history.", _NOTE, "online trace checker (phase protocol)"),
+    "C09": _t("M-pace over pacing workloads: debt paid by debt-driven calls, completion bound A < rho*H/(1-rho) (bounded restatement of 'cycles always complete'), stop-the-world, sleep rule with exact debt past the wake-up amount; knowledge the monitor cannot infer is Unknown and the check skipped and counted.", _NOTE, "runtime pacing monitor over debt/count/phase samples"),
     "C10": _t("M-metrics: total_gc_count vs allocator registry, debt finiteness/sign/monotonicity, adjust_debt exactness, arithmetic-fault capture, in debug and release.", _NOTE, "runtime metrics monitor vs tracking allocator"),
+    "C11": _t("Fault enumeration: injected panic at every trace-event position of every collection call and every body position of every callback kind of clean schedules, failing constructors; C01-C05 monitors judge the continued history, differentially against the fault-free twin.", _NOTE, "fault injection at enumerated points + base monitors", ),
     "C14": _t("M-roots: shadow multiset of handles vs survival (M-live/M-exact), fetch identity, foreign-handle rejection, handles outliving the arena.", _NOTE, "runtime monitor of dynamic roots"),
+    "C20": _t("M-frame before/after every op on another arena plus bit-exact projection equality against a lone-arena replay, on random multi-arena interleavings.", _NOTE, "frame + projection (differential replay) monitors"),
 }
 
-NOT_APPLICABLE = {p: "check not built yet in this revision (in progress)" for p in ["C09", "C11", "C12", "C13", "C15", "C16", "C17", "C18", "C19", "C20"]}
+NOT_APPLICABLE = {p: "check not built yet in this revision (in progress)" for p in ["C12", "C13", "C15", "C16", "C17", "C18", "C19"]}
